@@ -43,7 +43,7 @@ func w1Gen(r *rand.Rand, prop, tier string) *simrt.Case {
 		cfg["max_steps"] = 12000
 	}
 	switch prop {
-	case "C01", "C05", "C41":
+	case "C01", "C05":
 		w1GenProduceHeavy(r, c, nclients, maxOps, prop)
 	default:
 		w1GenProp(r, c, nclients, maxOps, prop, tier)
